@@ -374,6 +374,9 @@ pub struct World {
     /// the application deletes a former member's stored group before it rejoins (off only
     /// where "comes back with the same storage" is the case under test)
     pub rejoin_hygiene: bool,
+    /// authenticated data of the proposal created last / of the winning commit being delivered
+    pub last_aad: Vec<u8>,
+    pub cur_commit: Option<(usize, Vec<u8>)>,
 }
 
 pub struct CommitResult {
@@ -399,6 +402,8 @@ impl World {
             epoch_obs: BTreeMap::new(),
             export_probes: vec![],
             rejoin_hygiene: true,
+            last_aad: vec![],
+            cur_commit: None,
         }
     }
 
